@@ -122,11 +122,16 @@ def run(ctx, config='rel-all'):
             continue
         I, res, body = val
         fn = arena.short(body['id'])
-        own = [e for e in res.events if len(e.stack) == 1]
+        own = [e for e in res.events if e.is_own()]      # own frame, or a closure / private helper exclusive to this function
         reads = [e for e in own if e.kind == 'call' and e.callee == 'core::ptr::read']
         if len(reads) == 1:
             src = reads[0].args[0]
-            in_err = src[0] == 'addr' and src[1][0] == 'fld' and src[1][1][0] == 'variant' and src[1][1][2] == 'Err'
+            def err_slot(x):
+                return isinstance(x, tuple) and len(x) > 1 and x[0] == 'addr' and isinstance(x[1], tuple) and x[1][0] == 'fld' and x[1][1][0] == 'variant' and x[1][1][2] == 'Err'
+            in_err = err_slot(src)
+            if not in_err and isinstance(src, tuple) and src[0] == 'app' and 'err' in str(src[1]):
+                # the Err payload of a merged `as_mut().map(..).map_err(..)` value: the reference inside its Err alternative
+                in_err = any(err_slot(x) for x in subterms(src))
             carried = any(reads[0].ret is not None and reads[0].ret in subterms(t) for t, _ in arena.alternatives(I, res.ret, set()) if t[0] == 'agg' and t[2] == 'Err')
             if in_err and carried:
                 ctx.ok('R2', '%s: the error is moved out of the slot exactly once and returned in Err' % fn, 'single ptr::read of (slot as Err).0; its value occurs in the Err return alternative')
